@@ -60,6 +60,73 @@ def find_smc_loop(sample):
     return None
 
 
+@dataclass
+class Roles:
+    """Names of the loop-carried locals of SMCSampler.sample, found from what
+    they are *used for* (never from their spelling): the temperature is what
+    determine_beta's first result is bound to, the population what mutate's
+    result is bound to, the counter what is incremented by one per iteration."""
+    beta: str
+    min_step: str
+    samples: str
+    iterations: str
+    beta_step: str | None
+    guard: str | None
+    db_args: dict  # determine_beta parameter -> local name handed to it
+
+
+def roles(repo) -> Roles:
+    cached = repo.__dict__.get("_smc_roles")
+    if cached is not None:
+        return cached
+    smc = repo.cls(SMC)
+    sample = smc.methods.get("sample")
+    if sample is None:
+        raise AnalysisError("SMCSampler.sample not found")
+    loop = find_smc_loop(sample)
+    if loop is None:
+        raise AnalysisError("the SMC loop (a loop calling self.mutate) was not found in SMCSampler.sample")
+    me = sample.params[0]
+    beta = min_step = samples = iterations = None
+    db_args: dict = {}
+    db = smc.resolve("determine_beta")
+
+    def is_self_call(v, name):
+        return isinstance(v, ast.Call) and isinstance(v.func, ast.Attribute) and v.func.attr == name and isinstance(v.func.value, ast.Name) and v.func.value.id == me
+    for n in walk_no_nested(loop):
+        if isinstance(n, ast.Assign) and is_self_call(n.value, "determine_beta"):
+            tg = n.targets[0]
+            if isinstance(tg, (ast.Tuple, ast.List)) and len(tg.elts) == 2 and all(isinstance(x, ast.Name) for x in tg.elts):
+                beta, min_step = tg.elts[0].id, tg.elts[1].id
+            elif isinstance(tg, ast.Name):
+                beta = tg.id
+            params = db.params[1:] if db is not None else []
+            for pn, a in zip(params, n.value.args):
+                if isinstance(a, ast.Name):
+                    db_args[pn] = a.id
+            for k in n.value.keywords:
+                if k.arg and isinstance(k.value, ast.Name):
+                    db_args[k.arg] = k.value.id
+        if isinstance(n, ast.Assign) and is_self_call(n.value, "mutate") and isinstance(n.targets[0], ast.Name):
+            samples = n.targets[0].id
+        if isinstance(n, ast.AugAssign) and isinstance(n.op, ast.Add) and isinstance(n.target, ast.Name) and isinstance(n.value, ast.Constant) and n.value.value == 1:
+            iterations = n.target.id
+        if isinstance(n, ast.Assign) and isinstance(n.targets[0], ast.Name) and isinstance(n.value, ast.BinOp) and isinstance(n.value.op, ast.Add) \
+                and isinstance(n.value.left, ast.Name) and n.value.left.id == n.targets[0].id and isinstance(n.value.right, ast.Constant) and n.value.right.value == 1:
+            iterations = n.targets[0].id
+    # the population is what the temperature search is run on; binding mutate's result to it is what C08.flow checks
+    samples = db_args.get("samples") or samples
+    if beta is None or samples is None or iterations is None:
+        raise AnalysisError(f"loop-carried roles not found in the SMC loop (temperature={beta}, population={samples}, counter={iterations})")
+    guard = None
+    for n in walk_no_nested(sample.node):
+        if isinstance(n, ast.If) and loop in n.body and isinstance(n.test, ast.Name):
+            guard = n.test.id
+    r = Roles(beta, min_step or "min_step", samples, iterations, db_args.get("beta_step"), guard, db_args)
+    repo.__dict__["_smc_roles"] = r
+    return r
+
+
 def fold_sample(repo, concrete=None, resumed: bool | None = False, final: bool | None = False,
                 store_hist: bool | None = True, inline_mutate: bool = False, extra_no_inline=()):
     smc = repo.cls(SMC)
